@@ -235,3 +235,32 @@ def attribute_tagged_cases():
         out.append((f"attribute-tagged union, layout {ext}", U, vals))
         out.append((f"List[attribute-tagged union, layout {ext}]", t.List[U], [[v] for v in vals[:5]] + [[vals[0], vals[3]]]))
     return out
+
+
+# ---- refused values that cannot be printed ------------------------------------------------------------------------------------
+def unprintable_cases():
+    """[(label, T, value)] - interchange data holding an int that str() / repr() refuse to print (more digits than
+    sys.get_int_max_str_digits()): every one is REFUSED by T, and naming it in the error may not fail (found by a sub-agent of round 8;
+    fix D41). Kept out of the general value pools: the harness's own witnesses could not print it either."""
+    import sys as _sys
+    B = 10 ** (max(_sys.get_int_max_str_digits(), 640) + 700) if hasattr(_sys, 'get_int_max_str_digits') else 10 ** 5000
+
+    class UK(env.PaneBase):
+        a: int = 0
+
+    class UT(env.PaneBase, in_format=('tuple', 'struct')):
+        a: str
+        b: int = 0
+
+    ann = env.m_annotations
+    pos = t.Annotated[int, ann.Condition(lambda v: v > 0, 'pos')]
+    return [
+        ('key of Dict[int, int]', t.Dict[int, int], {B: 'x'}), ('value of Dict[int, str]', t.Dict[int, str], {1: B}), ('str', str, B),
+        ('element of List[str]', t.List[str], [1, B]), ('unknown key of a dataclass', UK, {B: 1}), ('unknown key beside a known one', UK, {'a': 1, B: 2}),
+        ('Optional[str]', t.Optional[str], B), ('slot of Tuple[int, str]', t.Tuple[int, str], (1, B)), ('over-long tuple', t.Tuple[int], [B, B]),
+        ('Literal', t.Literal['a'], B), ('struct literal', {'a': str}, {'a': B}), ('length condition', t.Annotated[str, ann.len_range(max=3)], B),
+        ('failed condition', pos, -B), ('Dict[str, dataclass]', t.Dict[str, UK], {'t': B}), ('float (overflow)', float, B), ('complex (overflow)', complex, B),
+        ('dataclass', UK, B), ('dataclass from a sequence', UK, [B]), ('tuple-layout dataclass', UT, [B, 1]), ('key of Dict[str, int]', t.Dict[str, int], {B: 1}),
+        ('element of Set[str]', t.Set[str], [B]), ('nested list', t.List[t.List[str]], [[B]]), ('date', __import__('datetime').date, B),
+        ('union of containers', t.Union[t.List[int], t.Dict[str, int]], B), ('bool', bool, B), ('key and value', t.Dict[str, str], {B: B}),
+    ]
